@@ -6,7 +6,11 @@ N_QUICK = 16
 N_THOROUGH = 120
 EXTRAS = {}
 FORCES = [dict(step_mode='mixed'), dict(step_mode='mixed', n_batch=7, n_shell=20), dict(step_mode='mixed', n_batch=1), dict(step_mode='mixed', resumes=2),
-          dict(step_mode='mixed', family='periodic', periodic=[0]), dict(step_mode='mixed', n_batch=50, n_shell=60)]
+          dict(step_mode='mixed', family='periodic', periodic=[0]), dict(step_mode='mixed', n_batch=50, n_shell=60),
+          # sure to reach the sampling phase with shells far below n_shell (a top-up needs several batches; with the
+          # exploration discarded every shell starts from zero)
+          dict(step_mode='mixed', family='gauss', n_dim=2, n_live=30, n_networks=0, n_batch=7, n_shell=40, n_eff=100, discard_at_end=True, vectorized=False, pool_l=None, pool_s=None),
+          dict(step_mode='mixed', family='twomode', n_dim=2, n_live=40, n_networks=0, n_batch=20, n_shell=50, n_eff=100, discard_at_end=False, resumes=1)]
 
 
 def main(run: Run, audit):
